@@ -325,6 +325,14 @@ func (it *Interp) callFn(fn *ssa.Function, args []Value, env []Value, pos token.
 		if it.inInit > 0 {
 			return it.opaqueResult(fn.Signature, "init-time call of "+fn.String())
 		}
+		if pk := fn.Package(); pk != nil {
+			switch pk.Pkg.Path() {
+			case "math/rand", "math/rand/v2", "crypto/rand", "os":
+				if ok, _ := it.M.extra["allow.random"].(bool); !ok {
+					it.nondetSource(fn.String())
+				}
+			}
+		}
 		it.abort("unmodelled callee %s (%s)", fn.String(), why)
 	}
 	return it.callSSA(fn, args, env)
